@@ -62,10 +62,12 @@ class Ctx:
             for e in extra:
                 gs |= set(solve._syms(e))
             sub = [a for a in rel if solve._syms(a) <= gs]
-            if not any(solve.is_nonlinear(a) for a in sub + extra):
+            if sub and not any(solve.is_nonlinear(a) for a in sub + extra):
                 r, _, _ = solve.check(sub + extra, timeout=self.qtimeout)
-                return "unsat" if r == "unsat" else "sat"
-            r, _, _ = solve.check(rel + extra, timeout=self.qtimeout)
+                if r == "unsat":
+                    return "unsat"
+            # non-linear cone: only the cheap abstractions (monomial linearisation) are tried for pruning
+            r, _, _ = solve.check(rel + extra, timeout=min(self.qtimeout, 5.0), cheap_only=not getattr(self, "full_feasibility", False))
             return "unsat" if r == "unsat" else "sat"
         r, _, _ = solve.check(rel + extra, timeout=self.qtimeout)
         return r
